@@ -48,6 +48,8 @@ def gen_case(rng, thorough, force=None):
     c["widths"] = None
     if rng.chance(0.45):
         c["widths"] = [[50e-9 * rng.uniform(0.5, 2.0) for _ in range(n)] for n in c["shape"]]
+        # the lower corner of an explicit grid may sit anywhere (chip-frame coordinates): energy is translation invariant
+        c["origin"] = [rng.choice([0.0, 0.0, 1e-3, -1e-3, 3e-5, -2.5e-4]) for _ in range(3)]
     c["eps_tier"] = rng.choice([1, 3])
     c["mu_tier"] = rng.choice([0, 1, 3])
     c["sig_e"] = rng.chance(0.35)
@@ -79,7 +81,8 @@ def materialise(c):
 
 
 def scene_of(c):
-    return Y.build(c["shape"], c["faces"], widths=c["widths"], complex_fields=True if c["bloch"] else None,
+    return Y.build(c["shape"], c["faces"], widths=c["widths"], origin=tuple(c.get("origin") or (0.0, 0.0, 0.0)),
+                   complex_fields=True if c["bloch"] else None,
                    bloch_vector=c["bloch_vector"])
 
 
@@ -158,7 +161,7 @@ FORCED = [
     dict(shape=[3, 4, 2], faces={"min_x": "periodic", "max_x": "periodic", "min_y": "pec", "max_y": "pmc", "min_z": "none", "max_z": "pec"}, consistent=True, bloch=False, bloch_vector=[0.0, 0.0, 0.0], project=True),
     dict(shape=[4, 1, 3], faces={k: "periodic" for k in Y.FACES}, consistent=True, bloch=False, bloch_vector=[0.0, 0.0, 0.0], project=True, sig_e=False, sig_h=False),
     dict(shape=[3, 3, 3], faces={"min_x": "bloch", "max_x": "bloch", "min_y": "periodic", "max_y": "periodic", "min_z": "pec", "max_z": "pec"}, consistent=True, bloch=True, bloch_vector=[1.3e7, 0.0, 0.0], project=True, sig_e=False, sig_h=False),
-    dict(shape=[2, 5, 3], faces={k: "none" for k in Y.FACES}, consistent=True, bloch=False, bloch_vector=[0.0, 0.0, 0.0], project=True, sig_e=True, sig_h=False, widths=[[4e-8, 7e-8], [5e-8, 3e-8, 9e-8, 5e-8, 6e-8], [5e-8, 5e-8, 8e-8]]),
+    dict(shape=[2, 5, 3], faces={k: "none" for k in Y.FACES}, consistent=True, bloch=False, bloch_vector=[0.0, 0.0, 0.0], project=True, sig_e=True, sig_h=False, widths=[[4e-8, 7e-8], [5e-8, 3e-8, 9e-8, 5e-8, 6e-8], [5e-8, 5e-8, 8e-8]], origin=[1e-3, -1e-3, 2e-3]),
 ]
 
 
